@@ -507,9 +507,11 @@ func checkCall(c *harness.Ctx, w *World, call *Call, world string) {
 		c.Probe("call-under-fault")
 		// under lossy faults: an error, or exactly the model's value — never a wrong or partial one
 		fs := strings.Join(faultsOf(call), ",")
-		for _, must := range []string{"req-lost", "resp-lost", "resp-trunc", "cancel", "strip-version"} {
+		// a request that never arrived, a response that never arrived or arrived cut (C04: a malformed response
+		// makes the call return an error), a call given up by its caller: none of them can end in success
+		for _, must := range []string{"req-lost", "resp-lost", "resp-trunc", "cancel"} {
 			if strings.Contains(fs, must) && call.Err == nil {
-				c.Fail("C02", "fault-swallowed", "fault-swallowed:"+must+":"+call.Method, "%s returned success although fault %q hit its exchange (a lost, cut or foreign-version response must surface as an error)", where, must)
+				c.Fail("C02", "fault-swallowed", "fault-swallowed:"+must+":"+call.Method, "%s returned success although fault %q hit its exchange (a lost or cut response must surface as an error)", where, must)
 				return
 			}
 		}
@@ -517,16 +519,12 @@ func checkCall(c *harness.Ctx, w *World, call *Call, world string) {
 			c.Fail("C02", "invoked-without-delivery", "invoked-without-delivery", "%s: the request was lost before delivery but the resource ran", where)
 			return
 		}
-		if strings.Contains(fs, "strip-version") && call.Out.Kind == "value" && fs == "strip-version" {
-			var uv *restli.UnsupportedRestLiProtocolVersion
-			if !errors.As(call.Err, &uv) {
-				c.Fail("C02", "version-error", "version-error:"+call.Method, "%s: the response lost its protocol-version header; expected UnsupportedRestLiProtocolVersion, got %T %v", where, call.Err, call.Err)
-				return
-			}
-		}
-		if strings.HasPrefix(fs, "cancel") && !errors.Is(call.Err, context.Canceled) {
-			c.Fail("C02", "cancel-error", "cancel-error:"+call.Method, "%s: the caller's context was cancelled; the error does not wrap context.Canceled: %T %v", where, call.Err, call.Err)
-			return
+		// A response that merely lost its protocol-version header is complete otherwise. The library refuses it
+		// today (UnsupportedRestLiProtocolVersion); none of the claimed properties demands that (the envelope
+		// clause belongs to C03), so both answers are accepted: an error, or - checked below like any other
+		// success - exactly the value the resource returned.
+		if fs == "strip-version" && call.Err == nil {
+			c.Probe("version-less-response-accepted")
 		}
 		if call.Err != nil {
 			return
